@@ -152,10 +152,20 @@ Section M.
     destruct (Nat.eqb a a0); [apply bal_ret|apply IH].
   Qed.
 
+  Lemma bal_copy_body (anc : addr) : bal0 (bindr (walk_ll (mx + 2) anc [])
+            (fun l => match real_items (tl l) with
+                      | Some items => Ret (Ok items)
+                      | None => Ret (Raise crash)
+                      end)).
+  Proof.
+    unfold bindr. apply bal_bind0; [apply bal_walk|]. intro a. destruct a; [|apply bal_ret].
+    destruct (real_items (tl a)); apply bal_ret.
+  Qed.
+
   Lemma bal_copy cls : bal0 (m_copy tb cls mx).
   Proof.
     unfold m_copy, locked, anchor_get. apply bal_with_lock. apply bal_act. intro r.
-    destruct r; try apply bal_ret. apply bal_walk.
+    destruct r; try apply bal_ret. apply bal_copy_body.
   Qed.
 End M.
 
@@ -248,7 +258,7 @@ Proof.
   - (* EqSelf *) unfold m_eq_self. apply locked_one_cs; [apply CM; [simpl; auto 20|discriminate]|].
     apply bal_ret.
   - (* Copy *) unfold m_copy. apply locked_one_cs; [apply CM; [simpl; auto 20|discriminate]|].
-    unfold anchor_get. apply bal_act. intro r. destruct r; try apply bal_ret. apply bal_walk.
+    unfold anchor_get. apply bal_act. intro r. destruct r; try apply bal_ret. apply bal_copy_body.
   - (* Len *) unfold m_len. apply locked_one_cs; [apply CM; [simpl; auto 20|discriminate]|]. bal_tac.
   - (* Contains *) unfold m_contains. apply locked_one_cs; [apply CM; [simpl; auto 20|discriminate]|]. bal_tac.
 Qed.
